@@ -1294,6 +1294,22 @@ func fixedCases() []corr.Case {
 		mk("bulk", "new syncq", "addn 4200 1000", "len", "drain", "len", "add 7", "pop", "pop", "add 8", "trypop", "addn 20 9000", "drain"),
 		mk("bulk", "new syncq", "addn 20 1", "drain", "addn 5000 100", "pop", "drain", "pop", "add 1", "pop", "close", "addn 3 7", "drain"),
 		mk("bulk", "new q 0", "addn 300 1", "pop", "popany", "close", "popany"),
+		// the ring buffer of eapache/queue holds 2^k slots: exactly full, one below, one above, then look at it
+		mk("ring", "new syncq", "addn 15 1", "len", "trypop", "len", "pop", "add 999", "len", "drain", "len", "trypop"),
+		mk("ring", "new syncq", "addn 16 1", "len", "trypop", "len", "pop", "add 999", "len", "drain", "len", "trypop"),
+		mk("ring", "new syncq", "addn 17 1", "len", "trypop", "len", "pop", "add 999", "len", "drain", "len", "trypop"),
+		mk("ring", "new syncq", "addn 31 1", "len", "trypop", "len", "pop", "add 999", "len", "drain", "len", "trypop"),
+		mk("ring", "new syncq", "addn 32 1", "len", "trypop", "len", "pop", "add 999", "len", "drain", "len", "trypop"),
+		mk("ring", "new syncq", "addn 33 1", "len", "trypop", "len", "pop", "add 999", "len", "drain", "len", "trypop"),
+		mk("ring", "new syncq", "addn 63 1", "len", "trypop", "len", "pop", "add 999", "len", "drain", "len", "trypop"),
+		mk("ring", "new syncq", "addn 64 1", "len", "trypop", "len", "pop", "add 999", "len", "drain", "len", "trypop"),
+		mk("ring", "new syncq", "addn 65 1", "len", "trypop", "len", "pop", "add 999", "len", "drain", "len", "trypop"),
+		mk("ring", "new syncq", "addn 127 1", "len", "trypop", "len", "pop", "add 999", "len", "drain", "len", "trypop"),
+		mk("ring", "new syncq", "addn 128 1", "len", "trypop", "len", "pop", "add 999", "len", "drain", "len", "trypop"),
+		mk("ring", "new syncq", "addn 129 1", "len", "trypop", "len", "pop", "add 999", "len", "drain", "len", "trypop"),
+		mk("ring", "new syncq", "addn 16 1", "pop", "pop", "addn 2 100", "len", "addn 14 200", "len", "trypop", "drain"),
+		mk("ring", "cnew syncq", "addn 16 1", "pop", "pop"),
+		mk("ring", "cnew syncq", "addn 32 1", "pop", "addn 31 100", "pop", "pop"),
 		// concurrency scripts (`cnew`): blocked consumers and bursts, run by the scheduler-driven runner of C13
 		mk("conc", "cnew syncq", "pop", "pop", "atomic add 1 ; add 2"),
 		mk("conc", "cnew syncq", "pop", "pop", "pop", "atomic add 1 ; add 2 ; add 3", "close"),
